@@ -107,6 +107,19 @@ Theorem C12_succeeds_iat_valid : forall hd sp ip ap iq kiat inf inp r,
 Proof. exact c12_succeeds_iat_valid. Qed.
 Print Assumptions C12_succeeds_iat_valid.
 
+(* the additional hypothesis follows from batch-level validity: every IAT batch of the input validates in the
+   Arith sense (abstract batch [fi_batch]: the entries as stored, control = recomputation) and, per entry, the
+   trace number carries the ODFI as an integer, ip_rdfi is Atoi(aba8) of the stored routing number, and the
+   entry holds at most two Addenda17 and five Addenda18 records *)
+Theorem C12_iat_pairs_of_valid : forall hd ip iq kiat inp,
+  Forall (fun b => kiat (b_sig b) = true ->
+            Arith.validate_batch GA (fi_batch GA hd ip iq b) = Arith.ROk /\
+            Forall (fun e => Offsets.trace_odfi (tnum (e_trace e)) = hd_odfi_z (hd (b_sig b)) /\ rdfi_tied ip iq e /\
+                             (ip_n17 (ip (e_core e)) <= 2)%nat /\ (ip_n18 (ip (e_core e)) <= 5)%nat) (b_entries b)) inp ->
+  Forall (iat_pair GA hd ip iq kiat) (ids inp).
+Proof. exact (iat_pairs_of_valid GA). Qed.
+Print Assumptions C12_iat_pairs_of_valid.
+
 (* non-vacuity: the file of C12_succeeds_iat_example satisfies the additional hypothesis; its consolidated
    IAT batch (both entries, trace order) is among the batches handed to AddToFile, Create with the
    validator accepts it, the control the validator sees is the tabulation (18 records, hash, credit) *)
